@@ -7,6 +7,7 @@ CONSTANTS
   MaxFaults = 2
   MaxEnv = 3
   ForeignAt = "none"
+  RenderFails = FALSE
   FailKinds = {"fnerror1", "fnerror2", "fatal1", "fatal2", "reqloop1", "reqloop2"}
 VIEW view
 ACTION_CONSTRAINT Emit
